@@ -191,6 +191,10 @@ class BuiltinMixin:
             return slen(V.s(v.z))
         if k == "tuple":
             return tlen(V.t(v.z))
+        if v.z is not None and st.pure:
+            z = v.z
+            return z3.If(V.is_S(z), slen(V.s(z)), z3.If(V.is_T(z), tlen(V.t(z)),
+                         z3.If(clsof(V.r(z)) == CLS_LIST, st.hread("$llen", V.r(z)), st.hread("$dlen", V.r(z)))))
         raise Unsupported(f"len of {v}", node)
 
     def isinstance_(self, st: State, v: Val, cls: Val, node):
